@@ -19,6 +19,25 @@ Theorem C07_create_iff : forall s i, i < length (nodes s) ->
 Proof. exact new_decision. Qed.
 Print Assumptions C07_create_iff.
 
+(* creating a qubit inside a register the node lists succeeds iff the node holds fewer than its maximum and the register has room *)
+Theorem C07_create_in_register_iff : forall s i ow k r, i < length (nodes s) ->
+  find_reg k (regs (nth_node s ow)) = Some r ->
+  let nd := nth_node s i in
+  (snd (step s (ONewInReg i ow k)) = Err KQuantum <-> ow <> i) /\
+  (snd (step s (ONewInReg i ow k)) = Err KNoQubit <-> ow = i /\ (maxQ nd <= length (virt nd) \/ r_max r <= r_n r)) /\
+  ((exists v, snd (step s (ONewInReg i ow k)) = Ok v) <-> ow = i /\ length (virt nd) < maxQ nd /\ r_n r < r_max r).
+Proof. exact newinreg_decision. Qed.
+Print Assumptions C07_create_in_register_iff.
+
+(* `creating more registers than the configured maximum is refused`: remote_add_register succeeds iff fewer than the maximum exist *)
+Theorem C07_create_register_iff : forall s i mq, i < length (nodes s) ->
+  let nd := nth_node s i in
+  (snd (step s (ONewReg i mq)) = Err KQuantum <-> maxR nd <= numRegs nd) /\
+  ((exists v, snd (step s (ONewReg i mq)) = Ok v) <-> numRegs nd < maxR nd) /\
+  (snd (step s (ONewReg i mq)) = Ok (nextReg nd) <-> numRegs nd < maxR nd).
+Proof. exact newreg_decision. Qed.
+Print Assumptions C07_create_register_iff.
+
 (* receiving succeeds iff the receiver holds fewer than its maximum — wherever the qubit is simulated *)
 Theorem C07_receive_iff : forall s h t vi q, find_handle s h = Some (vi, q) ->
   (snd (step s (OSend h t)) = Err KVirtNet <-> length (nodes s) <= t) /\
